@@ -86,7 +86,7 @@ def make_random(rng, idx):
     em_names = [one_par[int(rng.integers(4))] for _ in range(n_out)]
     total = GH.n_dims_for(n_out, fix_sigma, em_names)
     leaves = GP.random_composition(rng, n_ids, total_dim=total,
-                                   p_cov=0.35, cov_kinds='GLTP')
+                                   p_cov=0.35, cov_kinds='GLTPH')
     case = GH.HierCase(
         rng, leaves, n_ids, n_out, fix_sigma, em_names=em_names,
         reduced=rng.random() < 0.3, posterior=rng.random() < 0.3,
